@@ -64,8 +64,12 @@ where
         }
         if w.primary {
             let last = r.errs.last().unwrap();
-            if let Some(d) = span_wf::<I>(buf, last.span) {
-                return Some(d);
+            // spans of failures inside a nested input are in the inner input's terms (A6)
+            let inner_terms = m.stats.nested_runs > 0;
+            if !inner_terms {
+                if let Some(d) = span_wf::<I>(buf, last.span) {
+                    return Some(d);
+                }
             }
             match &m.pend {
                 // the bookkeeping of a failed not() is pinned, not specified: well-formedness only
